@@ -12,7 +12,7 @@
 static fiber_rwlock_t rw;
 static hcase_t* cur;
 static volatile long shared_cell;
-#define NN 64
+#define NN 128
 static mpsc_fifo_node_t nodes[NN];
 
 static void prog(int t) {
